@@ -372,6 +372,23 @@ def load_known(prop):
     return out
 
 
+def witness_findings(prop, binary, args=(), is_bad=None):
+    """Known findings whose input class is excluded from the generated space carry a concrete `witness_case`
+    (a complete harness case with the specification's strict prediction).  Each run replays the witness: while
+    the library still mis-handles it a KNOWN-FINDING line is printed; once it no longer does, nothing is printed."""
+    n = 0
+    for e in load_known(prop):
+        wc = e.get('witness_case')
+        if wc is None:
+            continue
+        recs = run_one(binary, wc, args=args)
+        bad = [r for r in recs if (is_bad(r) if is_bad else r.get('k') in ('mismatch', 'terminate', 'signal', 'crash'))]
+        if bad:
+            print('KNOWN-FINDING: property=%s %s (witness replayed)' % (prop, e['what']))
+            n += 1
+    return n
+
+
 def sig_matches(match, sig):
     for k, v in match.items():
         sv = sig.get(k)
